@@ -1513,9 +1513,12 @@ class Solid:
     #: The RGB colour this brush appears as in 2D views. Randomly assigned when the brush is
     #: created, but then set to the colour of the tied entity or visgroup.
     editor_color: Vec = attrs.field(factory=lambda: Vec(255, 255, 255))
+    # Until __attrs_post_init__() runs the id attribute only holds the requested value.
+    _id_allocated: bool = attrs.field(default=False, init=False, repr=False)
 
     def __attrs_post_init__(self) -> None:
         self.id = self.map.solid_id.get_id(self.id)
+        self._id_allocated = True
 
     def copy(
         self,
@@ -1644,7 +1647,9 @@ class Solid:
 
     def __del__(self) -> None:
         """Forget this solid's ID when the object is destroyed."""
-        self.map.solid_id.discard(self.id)
+        # If construction failed part way, we never got an ID - don't release someone else's.
+        if getattr(self, '_id_allocated', False):
+            self.map.solid_id.discard(self.id)
 
     def remove(self) -> None:
         """Remove this brush from the map."""
